@@ -625,7 +625,9 @@ fn split_responses(buf: &[u8]) -> (Vec<(u16, String, usize)>, usize) {
 /// H1 client: writes `segments` (each a separate write, tiny pause between), in `pipelined` mode the
 /// sentinel is the last segment(s); otherwise the sentinel is sent after the first response arrived
 /// (or after `wait` without one).
-fn h1_client(addr: SocketAddr, probe_segments: &[Vec<u8>], sentinel: &[u8], pipelined: bool, expect: usize, wait: Duration) -> ClientObs {
+/// `after_first`: the rest of the probe (the body its head announces), sent once the first answer arrived - a backend that
+/// answers from the request head - or after a short wait without one; then the sentinel (non-pipelined mode only).
+fn h1_client(addr: SocketAddr, probe_segments: &[Vec<u8>], after_first: &[u8], sentinel: &[u8], pipelined: bool, expect: usize, wait: Duration) -> ClientObs {
     let mut obs = ClientObs::default();
     let Ok(mut s) = TcpStream::connect_timeout(&addr, Duration::from_secs(2)) else { obs.closed = true; obs.raw = "connect failed".into(); return obs; };
     s.set_nodelay(true).ok();
@@ -654,6 +656,17 @@ fn h1_client(addr: SocketAddr, probe_segments: &[Vec<u8>], sentinel: &[u8], pipe
     if pipelined {
         if !write_err { let _ = s.write_all(sentinel); }
         read_some(&mut s, &mut got, Instant::now() + wait, expect, &mut obs);
+    } else if !after_first.is_empty() {
+        read_some(&mut s, &mut got, Instant::now() + Duration::from_millis(150), 1, &mut obs);
+        if !obs.closed {
+            obs.timed_out = false;
+            // (a pause: the answer has been relayed; does sozu still know that the announced body is to come?)
+            std::thread::sleep(Duration::from_millis(5));
+            let _ = s.write_all(after_first);
+            std::thread::sleep(Duration::from_millis(5));
+            let _ = s.write_all(sentinel);
+            read_some(&mut s, &mut got, Instant::now() + wait, expect, &mut obs);
+        }
     } else {
         read_some(&mut s, &mut got, Instant::now() + wait, 1, &mut obs);
         if !obs.closed {
@@ -691,6 +704,13 @@ struct H2Probe {
     pad_data: bool,
     /// pause between frames of the probe (lets sozu forward the head before the body arrives)
     gap_ms: u64,
+    /// the sentinel's HEADERS go between the probe's HEADERS and its first DATA / trailer frame (a gap on either side):
+    /// if the backend answered the probe from its head meanwhile, is the backend connection - on which the probe's request
+    /// is still incomplete - handed to the sentinel?
+    sentinel_mid: bool,
+    /// explore mode only: after the HEADERS (and a gap) the client abandons the stream with RST_STREAM(CANCEL) instead of
+    /// sending DATA; the sentinel follows after another gap
+    rst_mid: bool,
 }
 
 /// `late`: a further request (stream 5) sent once the probe's stream and the sentinel's were both answered by a backend:
@@ -703,7 +723,7 @@ fn h2_client(addr: SocketAddr, probe: &H2Probe, sentinel_headers: &[(Vec<u8>, Ve
         Err(e) => { obs.closed = true; obs.raw = format!("tls: {e}"); return obs; }
     };
     c.client_preface(&[]);
-    let send_probe = |c: &mut H2Conn<h2::TlsStream>, sid: u32| {
+    let send_probe = |c: &mut H2Conn<h2::TlsStream>, sid: u32, mid: Option<u32>| {
         let block = c.hp.encode_owned(&probe.headers);
         if probe.split_continuation && block.len() > 2 {
             let cut = block.len() / 2;
@@ -711,6 +731,18 @@ fn h2_client(addr: SocketAddr, probe: &H2Probe, sentinel_headers: &[(Vec<u8>, Ve
             c.send(&Frame::continuation(sid, block[cut..].to_vec(), true));
         } else {
             c.send(&Frame::headers(sid, block, true, probe.end_stream_on_headers));
+        }
+        if probe.rst_mid {
+            std::thread::sleep(Duration::from_millis(probe.gap_ms.max(25)));
+            c.send(&Frame::rst(sid, 8));
+            std::thread::sleep(Duration::from_millis(probe.gap_ms.max(25)));
+            return;
+        }
+        if let Some(ssid) = mid {
+            std::thread::sleep(Duration::from_millis(probe.gap_ms.max(25)));
+            let block = c.hp.encode_owned(sentinel_headers);
+            c.send(&Frame::headers(ssid, block, true, true));
+            std::thread::sleep(Duration::from_millis(probe.gap_ms.max(25)));
         }
         for (d, es) in &probe.data {
             if probe.gap_ms > 0 { std::thread::sleep(Duration::from_millis(probe.gap_ms)); }
@@ -727,7 +759,10 @@ fn h2_client(addr: SocketAddr, probe: &H2Probe, sentinel_headers: &[(Vec<u8>, Ve
         c.send(&Frame::headers(sid, block, true, true));
     };
     let (psid, ssid) = if sentinel_first { (3u32, 1u32) } else { (1u32, 3u32) };
-    if sentinel_first { send_sentinel(&mut c, ssid); send_probe(&mut c, psid); } else { send_probe(&mut c, psid); send_sentinel(&mut c, ssid); }
+    let mid = probe.sentinel_mid && !sentinel_first && !probe.end_stream_on_headers;
+    if sentinel_first { send_sentinel(&mut c, ssid); send_probe(&mut c, psid, None); }
+    else if mid { send_probe(&mut c, psid, Some(ssid)); }
+    else { send_probe(&mut c, psid, None); send_sentinel(&mut c, ssid); }
     // outcome per stream
     let mut out: BTreeMap<u32, String> = BTreeMap::new();
     let mut by: BTreeMap<u32, String> = BTreeMap::new();
@@ -735,6 +770,7 @@ fn h2_client(addr: SocketAddr, probe: &H2Probe, sentinel_headers: &[(Vec<u8>, Ve
     let mut deadline = Instant::now() + wait;
     let mut log = String::new();
     let mut late_sent = false;
+    if probe.rst_mid { out.insert(psid, "cancel".into()); }
     loop {
         let now = Instant::now();
         if now >= deadline { if !late_sent { obs.timed_out = true; } break; }
@@ -953,13 +989,15 @@ fn explore(env: &Env, lane: &Lane, line: &Value) -> Value {
         if !line["trailers"].is_null() { p.trailers = Some((pairs(&line["trailers"]), line["trailers_es"].as_bool().unwrap_or(true))); }
         p.split_continuation = line["cont"].as_bool().unwrap_or(false);
         p.gap_ms = line["gap_ms"].as_u64().unwrap_or(0);
+        p.sentinel_mid = line["sentinel_mid"].as_bool().unwrap_or(false);
+        p.rst_mid = line["rst_mid"].as_bool().unwrap_or(false);
         let late = late_h2(lane);
         h2_client(env.front_h2, &p, &sentinel_h2(lane), if line["late"].as_bool().unwrap_or(true) { Some(&late) } else { None }, line["sentinel_first"].as_bool().unwrap_or(false), wait)
     } else {
         let raw = bytes_of(&subst(line["raw"].as_str().unwrap()));
         let pipelined = line["pipelined"].as_bool().unwrap_or(true);
         let sent = if line["no_sentinel"].as_bool().unwrap_or(false) { vec![] } else { sentinel_h1(lane) };
-        h1_client(env.front_h1, &[raw], &sent, pipelined, 2, wait)
+        h1_client(env.front_h1, &[raw], &[], &sent, pipelined, 2, wait)
     };
     let bobs = collect_backend(lane, epoch, env.backend_kind, Duration::from_millis(800));
     json!({"client": {"statuses": cobs.statuses, "by": cobs.answered_by, "closed": cobs.closed, "timed_out": cobs.timed_out, "raw": cobs.raw}, "backend": back_json(&bobs)})
@@ -999,6 +1037,8 @@ struct Concrete {
     /// concrete method token sent, and the spec's name of it (GET HEAD POST CONNECT OPTIONS PURGE get)
     method: String,
     spec_method: String,
+    /// H1 cases with `early`: offset of the body in `h1_bytes`; the head is sent alone, the body after the first answer
+    body_after_answer: Option<usize>,
     /// the body bytes a backend must read if the probe is forwarded
     body: Vec<u8>,
     /// field names the client sent as field names (lower-case) - anything else read by a backend that
@@ -1150,7 +1190,9 @@ fn concretise_h1(c: &Value, code: &Value, lane: &Lane, rng: &mut Rng, allow_pipe
     }
     let mut bytes = bytes_of(&head);
     bytes.extend_from_slice(&wire_body);
-    let pipelined = rng.chance(60) && allow_pipelining;
+    let early = c["early"].as_bool().unwrap_or(false) && !wire_body.is_empty();
+    let body_after_answer = if early { Some(bytes.len() - wire_body.len()) } else { None };
+    let pipelined = rng.chance(60) && allow_pipelining && !early;
     let sentinel_first = pipelined && rng.chance(35);
     if sentinel_first {
         let mut b2 = sentinel_h1(lane);
@@ -1159,7 +1201,7 @@ fn concretise_h1(c: &Value, code: &Value, lane: &Lane, rng: &mut Rng, allow_pipe
     }
     // seeded segmentation: none / a few random cut points / every CRLF
     let mut cuts = Vec::new();
-    match rng.below(4) {
+    match if early { 0 } else { rng.below(4) } {
         0 => {}
         1 => { for _ in 0..1 + rng.below(3) { cuts.push(1 + rng.below(bytes.len().max(2) - 1)); } }
         2 => { if let Some(p) = bytes.windows(4).position(|w| w == b"\r\n\r\n") { cuts.push(p + 4); } }
@@ -1167,8 +1209,8 @@ fn concretise_h1(c: &Value, code: &Value, lane: &Lane, rng: &mut Rng, allow_pipe
     }
     cuts.sort(); cuts.dedup(); cuts.retain(|&x| x > 0 && x < bytes.len());
     desc.push_str(&format!("pipelined={pipelined} sentinel_first={sentinel_first} cuts={cuts:?}"));
-    desc.push_str(&format!(" method={method}"));
-    Concrete { h1_bytes: bytes, h2: H2Probe::default(), pipelined, sentinel_first, cuts, target, spec_target, method, spec_method, body, names, trailers, desc }
+    desc.push_str(&format!(" method={method} body_after_answer={body_after_answer:?}"));
+    Concrete { h1_bytes: bytes, h2: H2Probe::default(), pipelined, sentinel_first, cuts, target, spec_target, method, spec_method, body_after_answer, body, names, trailers, desc }
 }
 
 fn concretise_h2(c: &Value, lane: &Lane, rng: &mut Rng) -> Concrete {
@@ -1253,7 +1295,9 @@ fn concretise_h2(c: &Value, lane: &Lane, rng: &mut Rng) -> Concrete {
         if split_eq { pr.data.push((d[..2].to_vec(), false)); pr.data.push((d[2..].to_vec(), last && tr == "none")); }
         else { pr.data.push((d, last && tr == "none")); }
     }
-    pr.end_stream_on_headers = frames.is_empty() && tr == "none";
+    // "rst": HEADERS without END_STREAM, then the client abandons the stream
+    pr.rst_mid = c["data"] == "rst";
+    pr.end_stream_on_headers = frames.is_empty() && tr == "none" && !pr.rst_mid;
     if tr != "none" {
         let t: Vec<(Vec<u8>, Vec<u8>)> = match tr {
             "plain" | "noes" => vec![(b("x-t"), b("1"))],
@@ -1268,10 +1312,12 @@ fn concretise_h2(c: &Value, lane: &Lane, rng: &mut Rng) -> Concrete {
     pr.split_continuation = rng.chance(30);
     pr.pad_data = rng.chance(30);
     pr.gap_ms = if rng.chance(50) { 0 } else { 25 };
-    let sentinel_first = rng.chance(30);
-    let desc = format!("cont={} pad={} gap={}ms sentinel_first={sentinel_first} method={method_sent}", pr.split_continuation, pr.pad_data, pr.gap_ms);
+    let sentinel_first = rng.chance(30) && !pr.rst_mid;
+    // the sentinel between the probe's HEADERS and its DATA / trailers (a quarter of the probes that have any)
+    pr.sentinel_mid = !sentinel_first && !pr.end_stream_on_headers && !pr.rst_mid && rng.chance(25);
+    let desc = format!("cont={} pad={} gap={}ms sentinel_first={sentinel_first} sentinel_mid={} rst_mid={} method={method_sent}", pr.split_continuation, pr.pad_data, pr.gap_ms, pr.sentinel_mid, pr.rst_mid);
     let trailers = if matches!(tr, "plain" | "ident") { vec!["x-t".to_string()] } else if tr == "framing" { vec!["x-t".to_string(), "content-length".into(), "host".into()] } else { vec![] };
-    Concrete { h1_bytes: vec![], h2: pr, pipelined: true, sentinel_first, cuts: vec![], target, spec_target, method: method_sent, spec_method, body, names, trailers, desc }
+    Concrete { h1_bytes: vec![], h2: pr, pipelined: true, sentinel_first, cuts: vec![], target, spec_target, method: method_sent, spec_method, body_after_answer: None, body, names, trailers, desc }
 }
 
 // =====================================================================================
@@ -1319,6 +1365,9 @@ fn judge(lane: &Lane, case: &Value, conc: &Concrete, cobs: &ClientObs, bobs: &Ba
         else { format!("r{first}") }
     } else if first.starts_with("rst:") { "rst".into() }
         else if first.starts_with("goaway:") { "goaway".into() }
+        // the client abandoned the stream: "cancel" unless sozu itself refused (rst / goaway above) or answered (404) first;
+        // an answer a backend gave from the request head before the RST does not change that
+        else if conc.h2.rst_mid && (first == "cancel" || !by.is_empty()) { "cancel".into() }
         else if first == "closed" { "close".into() }
         else if first == "none" || first.is_empty() { "hang".into() }
         else if !by.is_empty() { "fwd".into() }
@@ -1337,6 +1386,13 @@ fn judge(lane: &Lane, case: &Value, conc: &Concrete, cobs: &ClientObs, bobs: &Ba
     let class: String = if class == "fwd" && !classes.iter().any(|c| c == "fwd") && bobs.early_heads > 0 && adm["partial"].as_bool().unwrap_or(false) {
         "answered-from-head".into()
     } else { class };
+    // H1, class "early": the client holds an answer a backend gave from the request head (HEAD), and no backend has read
+    // the probe completely: sozu did not wait for the rest of the request. Judged like a rejection (nothing complete of
+    // the probe at a backend; the prefix only where the spec admits it), the class must be admissible.
+    let class: String = if front == "h1" && class == "fwd" && bobs.early_heads > 0
+        && !bobs.reqs.iter().any(|r| r.complete && r.target != "/sentinel" && r.target != "/late") && bobs.anomalies.iter().any(|a| a.2.starts_with("partial")) {
+        "early".into()
+    } else { class };
     // ---- what the backends read
     let probe_reqs: Vec<&SeenReq> = bobs.reqs.iter().filter(|r| r.target != "/sentinel" && r.target != "/late").collect();
     // (the late request of an H2 probe - sent after both answers, to be written on the backend connection the probe used -
@@ -1349,6 +1405,11 @@ fn judge(lane: &Lane, case: &Value, conc: &Concrete, cobs: &ClientObs, bobs: &Ba
         let as_sent = r.method == "GET" && r.complete && r.body_len == 0 && r.cluster == "A" && (h2c || r.framing == "cl");
         if !as_sent || bobs.reqs.iter().filter(|x| x.target == "/late").count() > 1 {
             out.push(Verdict { class: "late-request-differs".into(), detail: ctx(json!({"read": format!("{} {} host={} {} {} complete={}", r.method, r.target, r.host, r.framing, r.body_len, r.complete)})) });
+        }
+    }
+    for r in bobs.reqs.iter().filter(|r| r.target == "/sentinel") {
+        if r.method != "GET" || r.body_len != 0 || !r.complete {
+            out.push(Verdict { class: "sentinel-differs".into(), detail: ctx(json!({"read": format!("{} {} host={} {} {} complete={}", r.method, r.target, r.host, r.framing, r.body_len, r.complete)})) });
         }
     }
     // (1) never: bytes a strict reader cannot read, a request sozu did not understand as one, a smuggled field line
@@ -1400,19 +1461,11 @@ fn judge(lane: &Lane, case: &Value, conc: &Concrete, cobs: &ClientObs, bobs: &Ba
         }
         let mut obs_sorted: Vec<String> = observed_list.iter().map(|v| v.to_string()).collect();
         obs_sorted.sort();
-        // A HEAD request answered from its head: once the client holds the complete answer sozu may stop relaying what is
-        // left of the request's content (RFC 9112 9.5 / RFC 9113 8.1: a complete response may precede the end of the
-        // request). The backend then holds a prefix of the probe - admissible iff nothing follows it on that connection
-        // (it ends in the incomplete message) and sozu closed it; what the backends read completely is then a sub-list of
-        // an admissible list (the probe missing; the sentinel too if sozu gave the frontend connection up with it).
-        let conn_closed = |cl: &str, ci: usize| bobs.raw.iter().any(|r| r.0 == cl && r.1 == ci && r.3);
-        let cut_after_early_answer = bobs.early_heads > 0 && !partials.is_empty() && partials.iter().all(|p| conn_closed(&p.0, p.1));
-        let sub_list = |obs: &[String], adm: &[String]| { let mut rest: Vec<&String> = adm.iter().collect(); obs.iter().all(|o| rest.iter().position(|a| *a == o).map(|i| { rest.remove(i); }).is_some()) };
-        let ok = lists.iter().any(|l| { let mut e: Vec<String> = l.iter().map(|v| v.to_string()).collect(); e.sort(); e == obs_sorted || (cut_after_early_answer && sub_list(&obs_sorted, &e)) });
+        let ok = lists.iter().any(|l| { let mut e: Vec<String> = l.iter().map(|v| v.to_string()).collect(); e.sort(); e == obs_sorted });
         if !ok {
             out.push(Verdict { class: "forward-differs".into(), detail: ctx(json!({"admissible_lists": lists})) });
         }
-        if !partials.is_empty() && !cut_after_early_answer { out.push(Verdict { class: "forward-incomplete".into(), detail: ctx(json!({"partials": partials})) }); }
+        if !partials.is_empty() { out.push(Verdict { class: "forward-incomplete".into(), detail: ctx(json!({"partials": partials})) }); }
         for r in &probe_reqs {
             for t in &r.trailers {
                 if !conc.trailers.contains(t) {
@@ -1440,7 +1493,7 @@ fn judge(lane: &Lane, case: &Value, conc: &Concrete, cobs: &ClientObs, bobs: &Ba
         }
         // ... and only the sentinel may have been served (never on H1: a framing error closes the connection)
         let sentinels = complete.iter().filter(|r| r.target == "/sentinel").count();
-        if front == "h1" && sentinels > 0 && !conc.sentinel_first { out.push(Verdict { class: "served-after-reject".into(), detail: ctx(json!({"sentinels": sentinels})) }); }
+        if front == "h1" && class != "early" && sentinels > 0 && !conc.sentinel_first { out.push(Verdict { class: "served-after-reject".into(), detail: ctx(json!({"sentinels": sentinels})) }); }
         if sentinels > 1 { out.push(Verdict { class: "extra-request".into(), detail: ctx(json!({"sentinels": sentinels})) }); }
         // (after RST_STREAM sozu may answer frames still in flight on that stream with GOAWAY(STREAM_CLOSED):
         //  the sentinel is then not served; that is H2 robustness, C14/C15, not a boundary disagreement)
@@ -1473,7 +1526,11 @@ fn run_case(env: &Env, lane: &Lane, case: &Value, seed: u64, idx: u64, variant: 
         // backend) and, rarely, the header block re-encoded after that reaches the backend out of HPACK sync. That is C02's
         // subject (every request gets its answer); this leg checks what mux/converter.rs writes for the probe, without sentinel.
         let sent_after: Vec<u8> = if conc.sentinel_first { expect = 2; vec![] } else if h2c { expect = 1; vec![] } else { sentinel_h1(lane) };
-        let mut cobs = h1_client(env.front_h1, &segs, &sent_after, conc.pipelined, expect, wait);
+        let (segs, after_first): (Vec<Vec<u8>>, Vec<u8>) = match conc.body_after_answer {
+            Some(off) => (vec![conc.h1_bytes[..off].to_vec()], conc.h1_bytes[off..].to_vec()),
+            None => (segs, vec![]),
+        };
+        let mut cobs = h1_client(env.front_h1, &segs, &after_first, &sent_after, conc.pipelined, expect, wait);
         if conc.sentinel_first {
             // the first answer is the sentinel's: what is judged is the answer to the probe
             if !cobs.statuses.is_empty() { cobs.statuses.remove(0); cobs.answered_by.remove(0); }
